@@ -15,7 +15,8 @@
 (*   hooks (other goroutines) PoolReturn, WaitDone, EngineReturn           *)
 (*   mocks                    ProvRunEnd, AggRunEnd, Bind, NewGunFail,     *)
 (*                            NewSchedFail, Shoot, Close                   *)
-(*   driver                   Cancel, RunReturn, WaitReturn, End           *)
+(*   driver                   Cancel, RunReturn, WaitReturn, End, Release  *)
+(*   mocks (blocked call)     Blocked                                      *)
 (* Steps nobody can log (context reads inside Waiter, channel hand-overs,  *)
 (* the pool goroutines' own selects) are silent steps which TLC            *)
 (* interleaves freely; their results surface in later logged events.       *)
@@ -28,9 +29,9 @@ EXTENDS PoolRunMC, IOUtils
 CONSTANTS Diag,       \* TRUE: print <<"VERIF-HW", run, l>> for every consumed line (diagnosis of a rejected run)
           PromptMs    \* one-sided guard band for "a cancelled Run returns promptly" on real runs
 
-VARIABLES l, run, retLogged, fwdLogged, wdLogged, runLogged
+VARIABLES l, run, retLogged, fwdLogged, wdLogged, runLogged, engLogged
 
-aux == <<retLogged, fwdLogged, wdLogged, runLogged>>
+aux == <<retLogged, fwdLogged, wdLogged, runLogged, engLogged>>
 tvars == <<vars, l, run, aux>>
 
 Trace == ndJsonDeserialize(IOEnv.VERIF_TRACE)
@@ -44,7 +45,7 @@ TInit ==
     /\ retLogged = [p \in 1..Trace[s].n |-> FALSE]
     /\ fwdLogged = [p \in 1..Trace[s].n |-> FALSE]
     /\ wdLogged = [p \in 1..Trace[s].n |-> 0]
-    /\ runLogged = FALSE
+    /\ runLogged = FALSE /\ engLogged = FALSE
 
 Have(e) == l <= Len(Trace) /\ Ev.run = run /\ Ev.ev = e
 
@@ -56,16 +57,19 @@ PRet(e) == IF e.cls = "err" THEN Ret("err", e.c) ELSE Ret(e.cls, "")
 (* ---- driver events ---- *)
 TCancel == Have("Cancel") /\ UserCancel /\ Consume /\ UNCHANGED aux
 
+\* The hook is written by Run's deferred function: AFTER the loop has decided what Run returns (a silent EngRecv /
+\* EngCancel; a caller's cancel may land in between and must not change the result) and BEFORE the deferred cancel().
 TEngineReturn ==
-  /\ Have("EngineReturn") /\ (EngRecv \/ EngCancel) /\ engRet'.k # "none"
-  /\ Consume /\ UNCHANGED aux
+  /\ Have("EngineReturn") /\ engRet.k # "none" /\ ~engLogged
+  /\ engLogged' = TRUE
+  /\ Consume /\ UNCHANGED <<vars, retLogged, fwdLogged, wdLogged, runLogged>>
 
 TRunReturn ==
   /\ Have("RunReturn") /\ ~runLogged
   /\ engRet = (IF Ev.cls = "err" THEN ERet("err", Ev.p, Ev.c) ELSE ERet(Ev.cls, 0, ""))
   /\ (Ev.flag => Ev.ms <= PromptMs)
   /\ runLogged' = TRUE
-  /\ Consume /\ UNCHANGED <<vars, retLogged, fwdLogged, wdLogged>>
+  /\ Consume /\ UNCHANGED <<vars, retLogged, fwdLogged, wdLogged, engLogged>>
 
 TWaitReturn == Have("WaitReturn") /\ runLogged /\ WaitReturn /\ Consume /\ UNCHANGED aux
 
@@ -76,6 +80,19 @@ TEnd ==
   /\ PrintT(<<"VERIF-ACC", run>>)
   /\ Consume /\ UNCHANGED <<vars, aux>>
 
+\* a mock has entered the component call that does not return before Run has returned (plan field block)
+TBlocked ==
+  /\ Have("Blocked") /\ PP(Ev.p).block = Ev.cls
+  /\ CASE Ev.cls \in {"newgun-warmup", "warmup"} -> poolPc[Ev.p] = "init"
+       [] Ev.cls = "sched-shared" -> poolPc[Ev.p] = "async"
+       [] Ev.cls \in {"newgun-first", "bind-first"} -> st[Ev.p].pc = "create"
+       [] Ev.cls = "shoot" -> ipc[Ev.p][0] = "shoot" /\ ishots[Ev.p][0] = 0
+       [] OTHER -> FALSE
+  /\ Consume /\ UNCHANGED <<vars, aux>>
+
+\* the driver lets those calls return: only after Engine.Run has returned
+TRelease == Have("Release") /\ runLogged /\ Released /\ Consume /\ UNCHANGED <<vars, aux>>
+
 (* ---- pool / engine hooks ---- *)
 TPoolReturn ==
   /\ Have("PoolReturn") /\ ~retLogged[Ev.p]
@@ -85,12 +102,12 @@ TPoolReturn ==
      \/ \* Run received the error and logged its return before the await goroutine logged ErrForwarded
         /\ poolPc[Ev.p] = "select" /\ aw[Ev.p].pc = "onerr" /\ Ev.cls = "err" /\ aw[Ev.p].pend = Ev.c
         /\ ForwardErr(Ev.p)
-  /\ Consume /\ UNCHANGED <<fwdLogged, wdLogged, runLogged>>
+  /\ Consume /\ UNCHANGED <<fwdLogged, wdLogged, runLogged, engLogged>>
 
 TWaitDone ==
   /\ Have("WaitDone") /\ wdLogged[Ev.p] < wdCount[Ev.p]
   /\ wdLogged' = [wdLogged EXCEPT ![Ev.p] = @ + 1]
-  /\ Consume /\ UNCHANGED <<vars, retLogged, fwdLogged, runLogged>>
+  /\ Consume /\ UNCHANGED <<vars, retLogged, fwdLogged, runLogged, engLogged>>
 
 (* ---- await goroutine hooks ---- *)
 TAwaitProvider == Have("AwaitProvider") /\ provCh[Ev.p] = Ev.cls /\ AwaitProvider(Ev.p) /\ Consume /\ UNCHANGED aux
@@ -105,7 +122,7 @@ TErrForwarded ==
   /\ fwdLogged' = [fwdLogged EXCEPT ![Ev.p] = TRUE]
   /\ \/ fwd[Ev.p] = "none" /\ aw[Ev.p].pend = Ev.cls /\ ForwardErr(Ev.p)
      \/ fwd[Ev.p] = Ev.cls /\ UNCHANGED vars
-  /\ Consume /\ UNCHANGED <<retLogged, wdLogged, runLogged>>
+  /\ Consume /\ UNCHANGED <<retLogged, wdLogged, runLogged, engLogged>>
 
 TErrSuppressed == Have("ErrSuppressed") /\ aw[Ev.p].pend = Ev.cls /\ SuppressErr(Ev.p) /\ Consume /\ UNCHANGED aux
 
@@ -148,8 +165,8 @@ TSkip == /\ l <= Len(Trace) /\ Ev.run = run /\ Ev.ev \in {"NewGunOk", "NewSchedO
 LongSilent(p, i) == PP(p).long /\ (InstCheck(p, i) \/ (qClosed[p] /\ InstAcquire(p, i)))
 
 TSilent ==
-  /\ \/ EngRecv /\ engRet'.k = "none"
-     \/ EngDefer \/ UserCancelDo
+  /\ \/ EngRecv \/ EngCancel
+     \/ (engLogged /\ EngDefer) \/ UserCancelDo
      \/ \E p \in Pools :
           \/ PoolStep(p) \/ ProvCloseQ(p)
           \/ StartFirstNone(p) \/ StartFirstGo(p) \/ StartLoop(p) \/ StartRet(p)
@@ -159,7 +176,7 @@ TSilent ==
   /\ UNCHANGED <<l, run, aux>>
 
 TNext ==
-  \/ TCancel \/ TEngineReturn \/ TRunReturn \/ TWaitReturn \/ TEnd
+  \/ TCancel \/ TEngineReturn \/ TRunReturn \/ TWaitReturn \/ TEnd \/ TBlocked \/ TRelease
   \/ TPoolReturn \/ TWaitDone
   \/ TAwaitProvider \/ TAwaitAggregator \/ TAwaitStart \/ TAwaitInstance \/ TAllFinished
   \/ TErrForwarded \/ TErrSuppressed
